@@ -119,7 +119,7 @@ class Check(BaseCheck):
 
     def correspond(self, drv, stats):
         fails = []
-        for case in self.cases(self.seed, 40 if self.quick else 600):
+        for case in self.cases(self.seed, 40 if self.quick else 4000):
             v, t, f, levels = case["v"], case["t"], case["f"], case["levels"]
             with core.quiet():
                 m = TriaMesh(*gen.arrays(case))
